@@ -957,22 +957,6 @@ def solve(rep, ex: Explorer):
                         b = Q[-1][0].evar
                         okk = ev.key.label == ("declname", b) and isinstance(ev.value, Sym) and ev.value.label[:1] == ("as_long",) and ev.value.label[1][:1] == ("modelval",) and ev.value.label[1][2] == ("elem", b, "decl")
                         rep.check(okk, "MODEL.extract", f"{site}:{ev.node.lineno}", "name/value pairing", "each constant's name is paired with its own value", extracted=f"{ev.key!r}: {ev.value!r}"[:160], required="d.name(): m[d]", function=site)
-                if fn == "solve_pareto_front" and which == "vars" and decided(p, ("empty", ("minvars",))) is False:
-                    chks = [v for k, v in p.decisions if k[0] == "check"]
-                    if chks and chks[-1] == "sat":
-                        apps = [e for e, Q2 in evs if e.kind == "list.append" and not Q2 and isinstance(e.value, Ref) and isinstance(p.state.heap.get(e.value.oid), HDict)]
-                        cont = p.outcome[0] == "loopback" or (p.outcome[0] == "return" and decided(p, ("isnone", "maxsol")) is False)
-                        rep.check(len(apps) == 1 and cont, "REV.entry", site, "front member recorded", "every optimum the optimiser reports is recorded once; the search goes on unless the requested number is reached",
-                                  extracted=f"{len(apps)} recorded, outcome {p.outcome[0]}", required="1 recorded, continue (or stop at max_solutions)", function=site)
-                        marks = [e.data.get("oid_mark") for e, Q2 in evs if e.kind == "while.enter" and not Q2 and e.data.get("oid_mark") is not None]
-                        if apps and marks:
-                            fresh = apps[0].value.oid > marks[-1]
-                            rep.check(fresh, "REV.entry", site, "front member is an object of its own", "each recorded optimum is a mapping created for it (one object updated and recorded again and again shows the last optimum in every place)",
-                                      extracted="created in this iteration" if fresh else "an object that exists across iterations is recorded", required="a new mapping per optimum", function=site)
-                        if p.outcome[0] == "return":
-                            vw = view(p.state, p.outcome[1])
-                            rep.check(isinstance(vw, tuple) and vw[0] == "list" and any(sg[0] == "one" for sg in vw[1]) and any(sg[0] == "sym" for sg in vw[1]), "REV.entry", site, "front returned",
-                                      "the recorded optima (earlier ones and this one) are what is returned", extracted=repr(vw)[:120], required="results so far + this one", function=site)
                 if p.outcome[0] == "return" and fn == "solve_and_get_model":
                     chks = [v for k, v in p.decisions if k[0] == "check"]
                     if chks and chks[-1] == "sat":
@@ -982,6 +966,96 @@ def solve(rep, ex: Explorer):
                 if p.outcome[0] == "raise":
                     rep.violation("REV.entry", site, "outcome", "solving never raises", extracted=repr(p.outcome[1])[:100], required="return", function=site)
             rep.floor(f"solver checks in {fn} ({which})", n, 1)
+
+
+def front_enumeration(rep, ex: Explorer):
+    """FRONT.enumeration on solve_pareto_front, decided by running its loop iteration by iteration (bounded) against what
+    z3's Optimize does under priority='pareto' (external model, see DESIGN 10.2): with two or more objectives successive
+    check() calls answer sat once per point of the front, each time with a new model, and then unsat; with a single
+    objective z3 does not enumerate at all - every check() answers sat with the same optimum.  Required for every such
+    behaviour: the call returns (the enumeration terminates), and the result holds exactly the reported points - each once,
+    each a mapping of its own, in the order reported; with a cap, the first max_solutions of them."""
+    qual = f"{MOD}.solve_pareto_front"
+    site = fn_label(ex.prog, qual)
+    LIMIT = 5
+    n = 0
+    for nvars in (1, 2, 3):
+        VARS = ["x", "y", "z"][:nvars]
+        for cap in (None, 1, 2):
+            def conv(I, fi, args, kwargs, node):
+                return I.alloc(HList([("sym", "Z3CSP")]))
+
+            def intvals(I, fi, args, kwargs, node, nvars=nvars, VARS=VARS):
+                m = args[0]
+                if not (isinstance(m, ElemV) and m.role == "model"):
+                    raise AnalysisError(f"{site}: values are read from {m!r}, not from the optimiser's model")
+                tag = m.var[1] if nvars > 1 else "the optimum"   # one objective: the same model every time
+                I.log("front.point", node, tag=tag)
+                return I.alloc(HDict(entries={v: Sym(("val", tag, v), "int") for v in VARS}))
+
+            def setup(I, VARS=VARS, cap=cap):
+                return [I.alloc(HList([("sym", "CSP")])), I.alloc(HList([("one", Const(v)) for v in VARS]))], {"max_solutions": Const(cap)}
+
+            summ = dict(wrappers.SUMMARIES)
+            summ[f"{MOD}._convert_csp_to_z3"] = conv
+            summ[f"{MOD}._int_values"] = intvals
+            paths = ex.run(qual, setup, summaries=summ, key=f"front-enum-{nvars}-{cap}", unroll_while=LIMIT)
+            for p in paths:
+                chks = [v for k, v in p.decisions if k[0] == "check"]
+                other = [(k, v) for k, v in p.decisions if k[0] != "check"]
+                infeasible = False
+                for k, v in other:
+                    if k[0] == "in" and "'val'" in repr(k[1]):
+                        # "was this point reported before?" for a point that was not: the points of a front are pairwise
+                        # different (a repeated one has the same descriptor and is decided without a question)
+                        infeasible = infeasible or v is True
+                        continue
+                    raise AnalysisError(f"{site}: the enumeration depends on {show_pred(k)[:100]}")
+                if infeasible:
+                    continue
+                if "unknown" in chks:
+                    continue  # the optimiser gave up: CHECK.three-way decides what happens then
+                if nvars == 1 and "unsat" in chks[1:]:
+                    continue  # not a behaviour of z3 with one objective (sat once is sat always)
+                n_sat = chks.count("sat")
+                slot = f"{nvars} objective(s), cap {cap}, optimiser answers {' '.join(chks) or '-'}" + (" ... (sat for ever)" if nvars == 1 and chks and "unsat" not in chks else "")
+                if p.outcome[0] == "unroll-limit":
+                    if nvars == 1:
+                        n += 1
+                        rep.violation("FRONT.enumeration", site, f"termination ({nvars} objective, cap {cap})", "enumerating the front terminates: with a single objective z3 answers sat with the same optimum at every check(), so the loop must not wait for unsat",
+                                      extracted=f"still enumerating after {LIMIT} identical optima", required="stop at a repeated optimum / do not enumerate a single objective", function=site)
+                    continue  # a front with more points than the bound: not judged here
+                if p.outcome[0] != "return":
+                    n += 1
+                    rep.violation("FRONT.enumeration", site, slot, "the enumeration returns the front", extracted=f"{p.outcome[0]} {p.outcome[1]!r}"[:100], required="return", function=site)
+                    continue
+                rv = p.outcome[1]
+                lst = p.state.heap.get(rv.oid) if isinstance(rv, Ref) else None
+                if not (isinstance(lst, HList) and all(sg[0] == "one" for sg in lst.segs)):
+                    raise AnalysisError(f"{site}: the result is not a list of solutions: {view(p.state, rv)!r}"[:200])
+                tags = [ev.tag for ev, Q in iter_events(p.events) if ev.kind == "front.point"]
+                reported = []
+                for t in tags:
+                    if t not in reported:
+                        reported.append(t)
+                want_n = len(reported) if nvars > 1 else min(1, n_sat)
+                if cap is not None and cap >= 1:
+                    want_n = min(want_n, cap)
+                got = []
+                oids = []
+                for sg in lst.segs:
+                    d = p.state.heap.get(sg[1].oid) if isinstance(sg[1], Ref) else None
+                    if isinstance(d, HDict) and not d.each:
+                        oids.append(sg[1].oid)
+                        vals = {v.label[1] for v in d.entries.values() if isinstance(v, Sym) and isinstance(v.label, tuple) and v.label[:1] == ("val",)}
+                        got.append(next(iter(vals)) if len(vals) == 1 else ("mixed", tuple(sorted(map(repr, vals)))))
+                    else:
+                        got.append(("?", repr(sg[1])[:40]))
+                n += 1
+                ok = got == reported[:want_n] and len(set(oids)) == len(oids)
+                rep.check(ok, "FRONT.enumeration", site, slot, "the result holds exactly the points the optimiser reported - each once, each a mapping of its own, in order (with a cap: the first max_solutions)",
+                          extracted=f"{len(got)} solution(s): {got}" + ("" if len(set(oids)) == len(oids) else " (one mapping recorded several times)"), required=f"{reported[:want_n]}", function=site)
+    rep.floor("front enumeration behaviours evaluated", n, 12)
 
 
 def _bind(ex, qual, args, kwargs, skip_self=False):
